@@ -168,8 +168,16 @@ func gen(t *rapid.T) (*scen.Scenario, []string) {
 		a, b := callers[0].Reqs[0].Tag, callers[1].Reqs[0].Tag
 		steps = append(steps, scen.Step{Op: "hold", Hold: &scen.HoldSpec{Point: "send.enter", Tag: a, Until: b, Ms: 100}})
 	}
+	resent := rapid.IntRange(0, 3).Draw(t, "rotated") == 0
+	if resent {
+		// the server has retired the salt: every request is rejected once and answered only in its second copy
+		steps = append(steps, scen.Step{Op: "rotate", Salt: 0x0909090909090000 + int64(rapid.IntRange(1, 1000).Draw(t, "salt"))})
+	}
 	steps = append(steps, scen.Step{Op: "call", Calls: callers})
 	steps, feats := scen.AnswerRounds(s, steps, callers, 6)
+	if resent {
+		feats["answers-to-requests-resent-after-salt-rotation"] = 1
+	}
 	steps = append(steps, scen.Step{Op: "await-calls"}, scen.Step{Op: "probe"})
 	sc.RPC.Steps = steps
 	sc.GoMaxProcs = rapid.SampledFrom([]int{1, 2, 16}).Draw(t, "gomaxprocs")
